@@ -160,6 +160,41 @@ theorem toGrid_per_k {K : Type} [Field K] [CharZero K] (grid : Fin 3 → Nat) (k
       obtain ⟨h1, h2⟩ := (mem_kMap grid kpts c hc ik).1 hik
       exact hval ik c h1 h2
 
+/-! ## T4 — the index map of an anisotropic division grid -/
+
+/-- T4.  For an operation `g` and the grid `div`, the image of the grid point with index `n` is the grid point with
+    index `n'_j = Σ_i n_i M_ij div_j / div_i` (`M` = the reduced matrix of `g`, signs included); and `n'` is integral
+    whenever `symmetric_grid(div)` holds (the indices are then reduced `% div`). -/
+theorem gridImage_spec (L : List (PSym Rat)) (B : Mat Rat) (div : Fin 3 → Nat) (hd : ∀ i, div i ≠ 0)
+    (g : PSym Rat) (n : Vec Rat) :
+    (∀ j, g.transformReduced (fun i => n i / (div i : Rat)) B j * (div j : Rat)
+        = gridImage (signedRedMat g B) div n j) ∧
+    (det3 B ≠ 0 → symmetricGrid L B (fun i => (div i : Rat)) = true → g ∈ L → (∀ i, isInt (n i) = true) →
+        ∀ j, isInt (gridImage (signedRedMat g B) div n j) = true) := by
+  refine ⟨fun j => gridImage_spec_aux g B div hd n j, fun hB hs hg hn j => ?_⟩
+  rw [← gridImage_spec_aux g B div hd n j]
+  exact symmetricGrid_maps_grid_aux L B (fun i => (div i : Rat))
+    (fun i => by exact_mod_cast hd i) hB hs g hg n hn j
+
+/-- the mirror of a rectangular lattice described by the oblique cell a1=(1,0), a2=(1,1.3): on reduced k it acts
+    as `k @ [[-1,-2,0],[0,1,0],[0,0,1]]` -/
+def exObliqueMirror : PSym Rat := PSym.mk' (matOfList [-1, 0, 0, -2, 1, 0, 0, 0, 1]) false
+
+/-- T4'.  Dropping the ratios is wrong on an oblique cell with an anisotropic grid: for the mirror above the grid
+    2x3x1 is symmetric; the point with index (1,0,0), k = (1/2,0,0), is its own image (index map with ratios:
+    (-1,-3,0) ≡ (1,0,0)), its star has one member; the map without ratios sends it to index (1,1,0), i.e.
+    k = (1/2,1/3,0), which is not equivalent to any member of the star — two inequivalent K-points would be merged. -/
+theorem dropping_ratio_is_wrong :
+    let L := [PSym.identity, exObliqueMirror]
+    let div := gridOfList [2, 3, 1]
+    let M := signedRedMat exObliqueMirror matId
+    symmetricGrid L matId (vecOfList [2, 3, 1]) = true ∧
+    modGrid div (gridImage M div (vecOfList [1, 0, 0])) = [1, 0, 0] ∧
+    modGrid div (gridImageNoRatio M (vecOfList [1, 0, 0])) = [1, 1, 0] ∧
+    (star L matId (vecOfList [1/2, 0, 0])).length = 1 ∧
+    (star L matId (vecOfList [1/2, 0, 0])).all (fun y => !equivMod1 y (vecOfList [1/2, 1/3, 0])) = true := by
+  decide +kernel
+
 /-! ## examples: the hypotheses are met by concrete instances -/
 
 /-- a two-element group (`xor` on `Bool`) acting on `Fin 3` by `k ↦ -k`: a list-action -/
